@@ -87,6 +87,44 @@ func buildScenarios(thorough bool) []scenario {
 			}
 		}
 
+		// F1b create batches with RetrieveIfNameExists that mix existing names and new ones
+		// (existing first, existing in the middle), followed by further creates on the same
+		// leaseholder and a delete + create: every key handed out must be new.
+		for _, k := range []string{"index", "virtual", "free", "data-fixed"} {
+			for _, remote := range []bool{false, true} {
+				if remote && n == 1 {
+					continue
+				}
+				for _, pos := range []string{"first", "middle"} {
+					via := nodes[0]
+					l := via
+					if remote {
+						l = nodes[len(nodes)-1]
+					}
+					if !leased(k) {
+						l = 0
+					}
+					batch := []reqChan{mk(k, "a", l), mk(k, "n1", l), mk(k, "n2", l)}
+					if pos == "middle" {
+						batch = []reqChan{mk(k, "n1", l), mk(k, "a", l), mk(k, "n2", l)}
+					}
+					il := l
+					if il == 0 {
+						il = via
+					}
+					sc := scenario{name: fmt.Sprintf("retrieve-mixed/%s/%s/remote%v/n%d", k, pos, remote, n), nodes: n, steps: []step{
+						{Op: "create", Via: via, Tx: true, Chans: []reqChan{mk("index", "ix", il)}},
+						{Op: "create", Via: via, Tx: true, Chans: []reqChan{mk(k, "a", l)}},
+						{Op: "create", Via: via, Tx: true, Retrieve: true, Chans: batch},
+						{Op: "create", Via: via, Tx: true, Chans: []reqChan{mk(k, "n3", l)}},
+						{Op: "delete", Via: via, Tx: true, KeyNames: []string{"n1"}},
+						{Op: "create", Via: via, Tx: true, Chans: []reqChan{mk(k, "n4", l), mk(k, "n5", l)}},
+					}}
+					out = append(out, sc)
+				}
+			}
+		}
+
 		// F2 failing create batch (transactional): a valid entry followed by a failing one.
 		faults := []string{"missing-index", "invalid-name", "dup-in-req", "existing-name"}
 		for _, k := range kinds {
